@@ -112,6 +112,18 @@ func c09StartHandshake(hm *HandshakeManager, vpnAddr netip.Addr, cacheCb func(*H
 
 var c09Released []int
 
+// c09Late models a packet queued by another goroutine while the completion is in progress: packets may be queued for
+// the pending handshake (under the manager's lock) for as long as it is in the pending table, i.e. until Complete.
+// The hook replaces HostInfo.buildNetworks, the last call before Complete (its result plays no role in this unit).
+var c09HH *HandshakeHostInfo
+var c09Late bool
+
+func c09BuildNetworks(h *HostInfo, nets *bart.Lite, c cert.Certificate) {
+	if c09Late && c09HH != nil {
+		c09HH.cachePacket(c09Log, header.Message, 0, []byte{9}, c09Callback(99), &cachedPacketMetrics{sent: metrics.NilCounter{}, dropped: metrics.NilCounter{}})
+	}
+}
+
 func c09Callback(id int) packetCallback {
 	return func(t header.MessageType, st header.MessageSubType, h *HostInfo, p, nb, out []byte) {
 		c09Released = append(c09Released, id)
@@ -133,6 +145,7 @@ func VerifC09Initiator() {
 			hh.packetStore = append(hh.packetStore, &cachedPacket{header.Message, 0, c09Callback(i), []byte{byte(i)}})
 		}
 	}
+	c09HH, c09Late = hh, verifBool("packet_queued_during_completion")
 	cc, addrs := c09Cert()
 	c09Result = &handshake.Result{RemoteCert: cc, RemoteIndex: verifU32("remote_index"), LocalIndex: 7, HandshakeTime: verifU64("time"), Initiator: true}
 	via := ViaSender{UdpAddr: netip.AddrPortFrom(netip.AddrFrom4([4]byte{192, 0, 2, 9}), 4242)}
@@ -159,10 +172,18 @@ func VerifC09Initiator() {
 		}
 		verifAssert(hi.remoteIndexId == c09Result.RemoteIndex && hi.ConnectionState != nil && hi.ConnectionState.peerCert == cc, "the tunnel carries the handshake's index and verified certificate")
 		// C32: queued packets are released exactly once each, in order
-		verifAssert(len(c09Released) == queued, "every queued packet is sent exactly once when the handshake completes")
-		for i := 0; i < 3; i++ {
+		want := queued
+		if c09Late {
+			want++
+		}
+		verifAssert(len(c09Released) == want, "every queued packet is sent exactly once when the handshake completes, including one queued while the completion was in progress")
+		for i := 0; i < 4; i++ {
 			if i < len(c09Released) {
-				verifAssert(c09Released[i] == i, "queued packets are sent in order")
+				if i < queued {
+					verifAssert(c09Released[i] == i, "queued packets are sent in order")
+				} else {
+					verifAssert(c09Released[i] == 99, "the late packet is sent last")
+				}
 			}
 		}
 	} else {
